@@ -2437,19 +2437,20 @@ instant_soup(echs_instant_t broth, echs_instant_t water, echs_tzob_t z, int eof)
 	echs_instant_t soup;
 	echs_tzob_t fz;
 
-	if (UNLIKELY(echs_instant_all_day_p(water))) {
+	if (UNLIKELY(echs_instant_all_day_p(water) && z)) {
+		/* a day of the event's zone, at the event's time of day
+		 * there, BROTH has that in UTC */
+		const echs_instant_t loc = echs_instant_detach_tzob(
+			echs_instant_loc(broth, z));
+
+		water.intra = loc.intra;
+		soup = echs_instant_utc(echs_instant_detach_tzob(water), z);
+		(void)eof;
+	} else if (UNLIKELY(echs_instant_all_day_p(water))) {
 		/* oh we have to paste the missing intra
 		 * bits from the proto-event */
-		int fof;
-
 		water.intra = broth.intra;
-		fof = echs_instant_tzof(water, z);
 		soup = echs_instant_detach_tzob(water);
-
-		if (fof != eof) {
-			/* we need to add the discrepancy onto from */
-			soup = echs_tzob_shift(soup, fof, eof);
-		}
 	} else if (UNLIKELY((fz = echs_instant_tzob(water)))) {
 		soup = echs_instant_utc(water, fz);
 	} else {
